@@ -983,7 +983,13 @@ func (p *Prog) PoolElem(info *types.Info, call *ast.CallExpr) types.Type {
 
 // GlobalInit returns the initialiser of a package-level variable that is never assigned again (nor
 // has its address taken) anywhere in its package; nil otherwise.
-func (p *Prog) GlobalInit(v *types.Var) ast.Expr {
+func (p *Prog) GlobalInit(v *types.Var) ast.Expr { return p.globalInit(v, false) }
+
+// GlobalInitAddr is GlobalInit for variables whose address is taken (and handed out) but which are
+// never assigned by name.
+func (p *Prog) GlobalInitAddr(v *types.Var) ast.Expr { return p.globalInit(v, true) }
+
+func (p *Prog) globalInit(v *types.Var, addrOK bool) ast.Expr {
 	if v == nil || v.Pkg() == nil || v.Parent() != v.Pkg().Scope() {
 		return nil
 	}
@@ -1010,7 +1016,7 @@ func (p *Prog) GlobalInit(v *types.Var) ast.Expr {
 					}
 				}
 			case *ast.UnaryExpr:
-				if x.Op == token.AND {
+				if x.Op == token.AND && !addrOK {
 					if id, ok := x.X.(*ast.Ident); ok && info.ObjectOf(id) == v {
 						stored = true
 					}
